@@ -151,3 +151,27 @@ pub fn gap_plain(c: &Counters) -> u16 {
 pub fn gap_saturating(c: &Counters) -> u16 {
     c.blanks.max(c.breaks).saturating_add(c.breaks).min(1)
 }
+
+/// A word-at-a-time digit scan with a nibble trick that also accepts `* + , - . /`, and its clean twin that tests both nibbles.
+pub fn digits_swar_loose(input: &[u8]) -> usize {
+    let mut end = 0;
+    while let Some(word) = input.get(end..).and_then(|rest| rest.first_chunk::<8>()) {
+        let word = u64::from_ne_bytes(*word);
+        if word & 0x8080_8080_8080_8080 != 0 || (word + 0x0606_0606_0606_0606) & 0xF0F0_F0F0_F0F0_F0F0 != 0x3030_3030_3030_3030 {
+            break;
+        }
+        end += 8;
+    }
+    end + input[end..].iter().take_while(|b| matches!(**b, b'0'..=b'9')).count()
+}
+pub fn digits_swar_exact(input: &[u8]) -> usize {
+    let mut end = 0;
+    while let Some(word) = input.get(end..).and_then(|rest| rest.first_chunk::<8>()) {
+        let word = u64::from_ne_bytes(*word);
+        if word & 0xF0F0_F0F0_F0F0_F0F0 != 0x3030_3030_3030_3030 || (word + 0x0606_0606_0606_0606) & 0xF0F0_F0F0_F0F0_F0F0 != 0x3030_3030_3030_3030 {
+            break;
+        }
+        end += 8;
+    }
+    end + input[end..].iter().take_while(|b| matches!(**b, b'0'..=b'9')).count()
+}
